@@ -114,10 +114,18 @@ func newInst(s *vdrv.Scenario) vdrv.Instance {
 		in.f = adder.NewFloat64Adder(adder.AtomicF64AdderType)
 	}
 	if n := s.OptInt("pglen", 0); n > 0 {
+		mask, mod := uint64(s.OptInt("pgmask", 0)), s.OptInt("pgmod", 0)
+		// pgmod m > 0 (tables too big for a mask): slot j holds a cell unless j is a multiple of m; m = 1: no slot, m > n: every slot but 0
+		full := func(j int) bool {
+			if mod > 0 {
+				return j%mod != 0
+			}
+			return mask&(1<<uint(j)) != 0
+		}
 		if in.l != nil {
-			adder.VerifPregrow(in.l, n, s.OptInt("pgcap", n), uint64(s.OptInt("pgmask", 0)))
+			adder.VerifPregrowF(in.l, n, s.OptInt("pgcap", n), full)
 		} else {
-			adder.VerifPregrow(in.f, n, s.OptInt("pgcap", n), uint64(s.OptInt("pgmask", 0)))
+			adder.VerifPregrowF(in.f, n, s.OptInt("pgcap", n), full)
 		}
 	}
 	pos := 0
